@@ -353,7 +353,7 @@ func runBatch(p *Prop, a *Agg, b batch, bin string) {
 		cmd := exec.Command(bin, "child", p.ID, a.Tier, strconv.FormatUint(a.Seed, 10), strconv.Itoa(from), strconv.Itoa(b.to))
 		var stderr bytes.Buffer
 		cmd.Stderr = &stderr
-		cmd.Env = append(os.Environ(), "VERIF_CHILD=1")
+		cmd.Env = append(os.Environ(), "VERIF_CHILD=1", "GORACE=halt_on_error=0 history_size=3")
 		stdout, _ := cmd.StdoutPipe()
 		if err := cmd.Start(); err != nil {
 			fmt.Fprintf(os.Stderr, "cannot start child: %v\n", err)
@@ -401,6 +401,30 @@ func runBatch(p *Prop, a *Agg, b batch, bin string) {
 			}
 		}
 		err := cmd.Wait()
+		// race-detector reports of a race-built child (it keeps running after a report)
+		if strings.Contains(stderr.String(), "WARNING: DATA RACE") {
+			for _, rep := range ParseRaceReports(stderr.String()) {
+				var r Result
+				r.Idx = from
+				if rep.Framework {
+					r.Violate("race:"+rep.Pair(), "no data race in framework state", tail(rep.Text, 3500), map[string]any{"batch_from": from, "batch_to": b.to, "sites": rep.Pair()})
+				} else {
+					r.Count("race_reports_outside_framework", 1)
+				}
+				r.Inconclusive = ""
+				a.mu.Lock()
+				for _, v := range r.Violations {
+					a.AddViolation(r.Idx, v)
+				}
+				for k, v := range r.Counters {
+					a.Counters[k] += v
+				}
+				a.mu.Unlock()
+			}
+			if err != nil && open < 0 {
+				err = nil // exit status 66 only says "races were reported"
+			}
+		}
 		if err != nil && !aborted && open >= 0 {
 			// the child died inside case `open`
 			a.mu.Lock()
